@@ -608,7 +608,7 @@ class HtmlTreeView(HtmlView):
             lambda: Html.element(  # pylint: disable=g-long-ternary
                 'div',
                 [
-                    name,
+                    Html.escape(name) if isinstance(name, str) else name,
                     key_tooltip_fn(   # pylint: disable=g-long-ternary
                         root_path,
                         name=name,
@@ -628,7 +628,8 @@ class HtmlTreeView(HtmlView):
             Html.element(
                 'div',
                 [
-                    title or make_title(value),
+                    title if isinstance(title, Html) else Html.escape(
+                        title or make_title(value)),
                 ],
                 css_classes=['summary-title', css_classes],
             ),
@@ -717,7 +718,7 @@ class HtmlTreeView(HtmlView):
         Html.element(
             'span',
             [
-                str(root_path.key),
+                Html.escape(str(root_path.key)),
             ],
             css_classes=[
                 'object-key',
